@@ -302,9 +302,15 @@ def run(res, tier, seed, wd, replay=None):
     # the composed stack (client -> queuing wrapper -> buffered sink): its wire is judged by the same monitor
     stack_model(res, wd)
     _tq, trS, nstack = stack_traces(res, tier, seed, wd)
+    # the real socket adapters under the same writer (every sink kind on loopback sockets, receivers that stall or vanish):
+    # "the socket" of C05-C07/C19 is the adapter of the code, not only the scripted writer
+    runs_sock = 18 if tier == "quick" else 300
+    trK = os.path.join(wd, "trace-sink-drive.ndjson")
+    s3, _ = cvh(["sink-drive", "--seed", seed, "--runs", runs_sock, "--ops", 80, "--out", trK], timeout=3000)
+    log("[B] real sockets: %d runs/%d calls over every sink kind" % (s3["runs"], s3["calls"]))
     # ---- verdict: TLC validates every recorded trace against the monitor
     allf = os.path.join(wd, "trace-all.ndjson")
-    nev = concat([trA, trB1, trB2, trS], allf)
+    nev = concat([trA, trB1, trB2, trS, trK], allf)
     v = validate_trace("WriterTrace", allf, wd, timeout=1800)
     if v["consumed"] != v["total"]:
         raise ToolError("trace not fully consumed: %s of %s" % (v["consumed"], v["total"]))
@@ -321,11 +327,13 @@ def run(res, tier, seed, wd, replay=None):
                         b = json.loads(l)
             return {"how": "writer-replay", "behaviour": b}
         if str(e.get("kind", "")).startswith("stack-"):
-            return {"how": "stack-drive", "run": e.get("run"), "args": ["--seed", seed]}
+            return {"how": "stack-drive", "run": e.get("run"), "args": ["--seed", seed, "--runs", 20 if tier == "quick" else 400]}
+        if e.get("kind") not in ("mlw", "spy"):
+            return {"how": "sink-drive", "kind": e.get("kind"), "run": e.get("run"), "args": ["--seed", seed, "--runs", runs_sock, "--ops", 80]}
         return {"how": "writer-drive", "kind": e.get("kind"), "run": e.get("run"),
                 "args": ["--kind", e.get("kind"), "--seed", seed, "--runs", runs_mlw if e.get("kind") == "mlw" else runs_spy, "--ops", ops]}
     judge(res, v, events, origin)
-    ntraces = summ["behaviours"] + s1["runs"] + s2["runs"] + nstack
+    ntraces = summ["behaviours"] + s1["runs"] + s2["runs"] + nstack + s3["runs"]
     res.cov["traces_validated_against_impl"] = ntraces
     res.cov["evaluations"] = nev
     res.cov["distinct_nontrivial"] = ntraces
@@ -372,7 +380,10 @@ def do_replay(res, path, wd):
         events = read_ndjson(tr)
         judge(res, v, events, lambda r, e: o)
     else:
-        cvh(["writer-drive", "--out", tr] + [str(x) for x in o["args"]])
+        if o["how"] == "stack-drive":
+            cvh(["stack-drive", "--out-writer", tr, "--out-queue", tr + ".q"] + [str(x) for x in o["args"]], timeout=3000)
+        else:
+            cvh([o["how"], "--out", tr] + [str(x) for x in o["args"]], timeout=3000)
         events = read_ndjson(tr)
         # keep only the run in question
         starts = [i for i, e in enumerate(events) if e["ev"] == "reset" and e.get("run") == o["run"]]
